@@ -124,7 +124,7 @@ def while_nodes(src, qual):
     return [n for n in ast.walk(f.node) if isinstance(n, ast.While)]
 
 
-def install(vc, shape, table, own, loop_inv, extra_cuts=None, keep=CONFIG_FIELDS, kind='P', callee_extra_pre=None):
+def install(vc, shape, table, own, loop_inv, extra_cuts=None, keep=CONFIG_FIELDS, kind='P', callee_extra_pre=None, loop_inv_extra=None):
     """contract cuts for every function of `table` (name -> (pre components, post components)), loop cuts
     (invariant `loop_inv`) for the `while` loops of the function under verification, and one obligation
     per postcondition component of `own` at its normal exit"""
@@ -136,12 +136,13 @@ def install(vc, shape, table, own, loop_inv, extra_cuts=None, keep=CONFIG_FIELDS
         cuts[Q + name] = contract_cut(vc, shape, pre=pre, post=post, keep=keep, counter=counter, kind=kind)
     cuts.update(extra_cuts or {})
     vc.I.cuts.update(cuts)
-    lc = loop_cut(vc, shape, inv=loop_inv, keep=keep, counter=counter, kind=kind)
     tbl = getattr(vc.I, 'loop_cuts', None)
     if tbl is None:
         tbl = vc.I.loop_cuts = {}
-    for node in while_nodes(vc.src, Q + own):
-        tbl[id(node)] = lc
+    nodes = sorted(while_nodes(vc.src, Q + own), key=lambda n: n.lineno)
+    for k, node in enumerate(nodes):
+        extra = tuple((loop_inv_extra or [])[k]) if loop_inv_extra and k < len(loop_inv_extra) else ()
+        tbl[id(node)] = loop_cut(vc, shape, inv=tuple(loop_inv) + extra, keep=keep, counter=counter, kind=kind)
     post = table[own][1]
 
     def at_exit(vc_, ctx):
